@@ -32,7 +32,12 @@ func init() {
 var c13names = []string{"origin.example", "a.example:8448", "10.1.2.3", "10.1.2.3:8008", "[2001:db8::1]", "[::1]:8448", "xn--e1afmkfd.example", "UPPER.example", "h-y.phen.example"}
 var c13paths = []string{"/_matrix/federation/v1/send/1234", "/_matrix/federation/v2/send_join/%21room%3Aa.example/%24ev", "/_matrix/key/v2/server", "/a%2Fb/c", "/_matrix/federation/v1/event/$abc:def",
 	"/p/%C3%A9", "/with%20space", "/_matrix/federation/v1/query/directory", "/", "/x/y/z/"}
-var c13queries = []string{"", "", "?room_alias=%23a%3Ab", "?a=1&b=2", "?ver=1&ver=2&ver=10", "?q=", "?x=%2F%3F", "?e=%C3%A9"}
+var c13queries = []string{"", "", "?room_alias=%23a%3Ab", "?a=1&b=2", "?ver=1&ver=2&ver=10", "?q=", "?x=%2F%3F", "?e=%C3%A9", "?", "?&", "?flag", "?=1"}
+
+// Origins that are not server names by the specification's grammar (checked against ref.ServerName at start-up) but for
+// which the receiver holds a key: a genuine signature must not make them acceptable.
+var c13invalidOrigins = []string{"example.org:65536", "[2001:db8::1]:70000", "example.org:4294967295", "example.org:+8448", "example.org:-1", "exa_mple.org", "example.org:",
+	"exam ple.org", "[::1", "2001:db8::1", "example.org:80:90", "example.org:8o", ":8448", "ex/ample.org", "example.org:99999999999999999999"}
 
 type wireReq struct {
 	method  string
@@ -298,6 +303,20 @@ func runC13(c *mon.Ctx) {
 				"path-prefix":  func(w *wireReq) bool { w.uri = "/extra" + w.uri; return true },
 				"query-add":    func(w *wireReq) bool { if strings.Contains(w.uri, "?") { w.uri += "&admin=1" } else { w.uri += "?admin=1" }; return true },
 				"query-remove": func(w *wireReq) bool { p, _, ok := strings.Cut(w.uri, "?"); w.uri = p; return ok },
+				"bare-?-added": func(w *wireReq) bool {
+					if strings.Contains(w.uri, "?") {
+						return false
+					}
+					w.uri += "?"
+					return true
+				},
+				"bare-?-removed": func(w *wireReq) bool {
+					if !strings.HasSuffix(w.uri, "?") {
+						return false
+					}
+					w.uri = strings.TrimSuffix(w.uri, "?")
+					return true
+				},
 				"path-unescape": func(w *wireReq) bool {
 					if !strings.Contains(w.uri, "%2F") {
 						return false
@@ -461,8 +480,57 @@ func runC13(c *mon.Ctx) {
 			}
 		})
 	}
+	// genuine signatures by origins whose name is not a server name
+	for _, bad := range c13invalidOrigins {
+		if v, _, _ := ref.ServerName(bad); v == ref.Valid {
+			panic("harness bug: reference grammar accepts " + bad)
+		}
+	}
+	nBad := c.Scale(60, 6000)
+	for k := 0; k < nBad; k++ {
+		origin := c13invalidOrigins[k%len(c13invalidOrigins)]
+		dest := gen.Pick(r, c13names)
+		method := gen.Pick(r, []string{"GET", "PUT", "POST"})
+		uri := gen.Pick(r, c13paths) + gen.Pick(r, c13queries)
+		id := gen.NewIdentity(kr, origin, "ed25519:1")
+		c.Case("invalid-origin", map[string]any{"method": method, "uri": uri, "origin": origin, "destination": dest}, func() {
+			fr := fclient.NewFederationRequest(method, spec.ServerName(origin), spec.ServerName(dest), uri)
+			if method != "GET" {
+				if err := fr.SetContent(spec.RawJSON(`{"a":1}`)); err != nil {
+					return
+				}
+			}
+			if err := fr.Sign(spec.ServerName(origin), "ed25519:1", id.Priv); err != nil {
+				c.Count("invalid_origin_sign_refused")
+				return
+			}
+			hr, err := fr.HTTPRequest()
+			if err != nil {
+				c.Count("invalid_origin_request_refused")
+				return
+			}
+			var buf bytes.Buffer
+			if err := hr.Write(&buf); err != nil {
+				return
+			}
+			req, err := http.ReadRequest(bufio.NewReader(bytes.NewReader(buf.Bytes())))
+			if err != nil {
+				c.Count("invalid_origin_unframeable")
+				return
+			}
+			db := newMemKeyDB()
+			db.set(origin, "ed25519:1", id.Pub, nowMs+24*3600*1000, 0)
+			got, resp := fclient.VerifyHTTPRequest(req, now, spec.ServerName(dest), nil, &gmsl.KeyRing{KeyDatabase: db})
+			c.Count("verified_invalid_origin")
+			c.Nontrivial("invalid-origin|" + origin + "|" + method + uri)
+			if got != nil || resp.Code == 200 {
+				c.Failf("verify:accepts-invalid-origin", "VerifyHTTPRequest accepted a request whose X-Matrix origin %q is not a valid server name", origin)
+			}
+		})
+	}
 	c.Floor("verified_untampered", 100)
 	c.Floor("verified_tampered", 1000)
+	c.Floor("verified_invalid_origin", 30)
 }
 
 func trunc(b []byte) string {
